@@ -218,6 +218,28 @@ def run_sites(case):  # noqa: C901
                 raise RuntimeError("no function definition")
             return fdef(**{next(iter(fdef.parameters)): y})
         sites["function-call"] = (call_site, same)
+        # the same decisions with the pair on the *second* axis, behind an axis whose (symbolic) lengths agree: a comparison
+        # of whole shapes must look at every axis
+        n0 = sp[PARAMS[0]]
+        x2 = pt.make_placeholder("x2", (n0 + 1, ea), np.float64)
+        y2 = pt.make_placeholder("y2", (1 + n0, eb), np.float64)
+
+        def call_site2():
+            f = pt.trace_call(lambda u: 2 * u, pt.make_placeholder("u2", (n0 + 1, ea), np.float64))
+            fdef = f._container.function
+            return fdef(**{next(iter(fdef.parameters)): y2})
+
+        def whole_shapes():
+            from pytato.utils import are_shapes_equal
+            if not are_shapes_equal(x2.shape, y2.shape):
+                raise ValueError("shapes differ")
+        sites.update({
+            "are_shapes_equal(second axis)": (whole_shapes, same),
+            "broadcast(second axis)": (lambda: x2 + y2, same or one_a or one_b),
+            "stack(second axis)": (lambda: pt.stack([x2, y2]), same),
+            "concatenate-other-axis(second axis)": (lambda: pt.concatenate([x2, y2], axis=0), same),
+            "function-call(second axis)": (call_site2, same),
+        })
         for name, (fn, want) in sites.items():
             n += 1
             try:
